@@ -106,29 +106,36 @@ Check band_det_is_det_Qc : forall B : banded AQ, wfB B -> bm1 B <= bn B ->
                          (@mx_of Qc_fieldType (bn B) (@dense_entry AQ B))).
 Print Assumptions band_det_is_det_Qc.
 
-(* ---- the determinant vanishes exactly on the singular twins (completes band_det_spec_partial, which had only "nonsingular =>
-   nonzero"): over every mathcomp field, and at the exact tier AQ ---- *)
-Theorem band_det_nonzero_iff_nonsingular : forall (F : ssralg.GRing.Field.type) (abs : ssralg.GRing.Field.sort F -> ssralg.GRing.Field.sort F)
-  (ltb leb : ssralg.GRing.Field.sort F -> ssralg.GRing.Field.sort F -> bool),
-  PivotLaws (ArithOf F abs ltb leb) -> forall B : banded (ArithOf F abs ltb leb),
+(* ---- the determinant vanishes exactly on the singular twins, and the solver answers exactly on the nonsingular ones -- over
+   ANY field arithmetic (FieldLaws + PivotLaws; no mathcomp: Qc, the reals, Complex over a field alike).  This completes
+   band_det_spec_partial (which had "nonsingular => nonzero" only).  New half (Proofs/BandedDet2Ker.v): nonzero pivots give a
+   trivial kernel -- a solution of D x = 0 is carried forwards through the row operations of every stage to the final
+   upper triangular table with nonzero diagonal.  Consequence: whether band_solve refuses does not depend on the
+   right-hand side: one answer means nonsingular, nonsingular means every right-hand side is answered exactly. ---- *)
+From OV Require Import Proofs.BandedDet2Ker.
+Theorem band_det_nonzero_iff_nonsingular : forall (A : Arith), FieldLaws A -> PivotLaws A -> forall B : banded A,
   wfB B -> bm1 B <= bn B ->
-  exists dd : ArithOf F abs ltb leb, band_det B = Ok dd /\ (dd <> zero <-> trivial_kernel B).
-Proof. intros F abs ltb leb PL B. exact (band_det_nonzero_iff_lemma PL (B := B)). Qed.
-Check band_det_nonzero_iff_nonsingular : forall (F : ssralg.GRing.Field.type) (abs : ssralg.GRing.Field.sort F -> ssralg.GRing.Field.sort F)
-  (ltb leb : ssralg.GRing.Field.sort F -> ssralg.GRing.Field.sort F -> bool),
-  PivotLaws (ArithOf F abs ltb leb) -> forall B : banded (ArithOf F abs ltb leb),
+  exists dd, band_det B = Ok dd /\ (dd <> zero <-> trivial_kernel B).
+Proof. intros A FL PL B. exact (band_det_nonzero_iff_gen FL PL B). Qed.
+Check band_det_nonzero_iff_nonsingular : forall (A : Arith), FieldLaws A -> PivotLaws A -> forall B : banded A,
   wfB B -> bm1 B <= bn B ->
-  exists dd : ArithOf F abs ltb leb, band_det B = Ok dd /\ (dd <> zero <-> trivial_kernel B).
+  exists dd, band_det B = Ok dd /\ (dd <> zero <-> trivial_kernel B).
 Print Assumptions band_det_nonzero_iff_nonsingular.
-Theorem band_det_nonzero_iff_nonsingular_Qc : forall B : banded AQ, wfB B -> bm1 B <= bn B ->
-  exists dd : AQ, @band_det AQ B = Ok dd /\ (dd <> zero <-> trivial_kernel B).
-Proof. intros B. exact (band_det_nonzero_iff_Qc_lemma (B := B)). Qed.
-Check band_det_nonzero_iff_nonsingular_Qc : forall B : banded AQ, wfB B -> bm1 B <= bn B ->
-  exists dd : AQ, @band_det AQ B = Ok dd /\ (dd <> zero <-> trivial_kernel B).
-Print Assumptions band_det_nonzero_iff_nonsingular_Qc.
-Example band_det_nonzero_iff_nonsingular_Qc_nonvacuous :   (* ex_K = [[0,1],[1,5]]: nonsingular (band_solve_complete_nonvacuous), det -1 *)
-  wfB ex_K /\ bm1 ex_K <= bn ex_K /\ @band_det AQ ex_K = Ok (q (-1) 1).
-Proof. split; [repeat split|]. split; [cbn; lia|]. vm_compute. reflexivity. Qed.
+Theorem band_solve_answers_iff_nonsingular : forall (A : Arith), FieldLaws A -> PivotLaws A -> forall B : banded A,
+  wfB B -> bm1 B <= bn B ->
+  ((exists b x, length b = bn B /\ band_solve B b = Ok x) <-> trivial_kernel B) /\
+  (trivial_kernel B <->
+   forall b, length b = bn B -> exists x, band_solve B b = Ok x /\ length x = bn B /\ dense_mulv B x = b).
+Proof. intros A FL PL B. exact (band_solve_answers_iff_gen FL PL B). Qed.
+Check band_solve_answers_iff_nonsingular : forall (A : Arith), FieldLaws A -> PivotLaws A -> forall B : banded A,
+  wfB B -> bm1 B <= bn B ->
+  ((exists b x, length b = bn B /\ band_solve B b = Ok x) <-> trivial_kernel B) /\
+  (trivial_kernel B <->
+   forall b, length b = bn B -> exists x, band_solve B b = Ok x /\ length x = bn B /\ dense_mulv B x = b).
+Print Assumptions band_solve_answers_iff_nonsingular.
+Example band_det_nonzero_iff_nonsingular_nonvacuous :   (* ex_K = [[0,1],[1,5]]: nonsingular (band_solve_complete_nonvacuous), det -1 *)
+  PivotLaws AQ /\ wfB ex_K /\ bm1 ex_K <= bn ex_K /\ @band_det AQ ex_K = Ok (q (-1) 1).
+Proof. split; [exact AQ_PivotLaws|]. split; [repeat split|]. split; [cbn; lia|]. vm_compute. reflexivity. Qed.
 
 (* ---- m1 <= n is necessary, and what happens without it is known exactly: on a well-formed band with m1 > n, over ANY
    arithmetic (f64 included), decompose falls off the compact buffer in its first loop (the left shift reaches row n),
